@@ -328,12 +328,19 @@ def gen_cases(rng, tier):
             c["via"] = "assign"
         if r.chance(15):
             c["ignore"] = r.choice([["_generated"], ["ts"], ["ts", "_generated"], ["_source"]])
+        if r.chance(20) and inp[0] in ("obj", "iso"):
+            c["companion"] = r.choice([0, 3600, -18000, 19800, 7200, 1])
         if r.chance(25):
             e = expected(inp)
             if e is not None and 2 <= e[0][0] <= 9998:
                 c["disp"] = r.choice(["Europe/Amsterdam", "America/New_York", "Australia/Lord_Howe", "Asia/Kolkata", "NONE",
                                       "UTC", "Not/AZone"])
         cases.append(c)
+    # ---- JSON written by another producer: a timestamp WITHOUT offset in a record line means UTC, whatever the local zone
+    # of the reading process is
+    for text in ("2021-03-04T12:30:15", "2021-03-04T12:30:15.000001", "1999-12-31T23:59:59", "2021-11-07T01:30:00", "0001-01-02T00:00:00"):
+        for tz in ("America/New_York", "Asia/Tokyo", "UTC", "Europe/Amsterdam"):
+            cases.append({"kind": "jsonin", "text": text, "tz": tz})
     # ---- malformed stream: outside the domain (expected: error or the documented outcome)
     r = rng.fork("malformed")
     for _ in range(max(12, n // 8)):
@@ -429,12 +436,57 @@ def _missing_zone(inp):
     return inp[0] == "obj" and isinstance(inp[2], list) and inp[2][0] == "zone" and not zone_ok(inp[2][1])
 
 
+def run_jsonin(case):
+    import time
+
+    from flow.record import RecordDescriptor, RecordReader, RecordWriter
+    desc = RecordDescriptor("test/dtj", [("datetime", "ts"), ("varint", "n")])
+    d = tempfile.mkdtemp(prefix="frv-c13j-")
+    old = os.environ.get("TZ")
+    try:
+        p = os.path.join(d, "in.json")
+        w = RecordWriter("jsonfile://" + p)
+        w.write(desc(ts=V.build(GEN_FIXED), n=1, _generated=V.build(GEN_FIXED)))
+        w.flush()
+        w.close()
+        lines = open(p, encoding="utf-8").read().splitlines()
+        out = []
+        for ln in lines:
+            o = json.loads(ln)
+            if o.get("_type") == "record":
+                o["ts"] = case["text"]
+            out.append(json.dumps(o))
+        open(p, "w", encoding="utf-8").write("\n".join(out) + "\n")
+        os.environ["TZ"] = case["tz"]
+        time.tzset()
+        try:
+            rd = RecordReader("jsonfile://" + p)
+            try:
+                got = [r for r in rd]
+            finally:
+                rd.close()
+            if len(got) != 1:
+                return {"error": "count", "msg": str(len(got))}
+            return {"read": _obs_dt(got[0].ts)}
+        except Exception as e:
+            return {"error": type(e).__name__, "msg": str(e)[:120]}
+    finally:
+        if old is None:
+            os.environ.pop("TZ", None)
+        else:
+            os.environ["TZ"] = old
+        time.tzset()
+        shutil.rmtree(d, ignore_errors=True)
+
+
 def run_real(case):
     from flow.record import RecordDescriptor, RecordReader, RecordWriter, fieldtypes
     from flow.record.packer import RecordPacker
 
     if case["kind"] == "display":
         return run_display(case)
+    if case["kind"] == "jsonin":
+        return run_jsonin(case)
     inp = case["input"]
     if _missing_zone(inp):
         return {"skipped": "zone missing"}
@@ -451,6 +503,18 @@ def run_real(case):
             rec.ts = value
         else:
             rec = desc(ts=value, _generated=gen)
+        if case.get("companion") is not None and rec.ts is not None and rec.ts.tzinfo is not None:
+            # a second timestamp field, written BEFORE ts, holding the same instant under another UTC offset (equal as
+            # Python objects): each field keeps its own offset
+            import datetime as _d
+            plain = _d.datetime(rec.ts.year, rec.ts.month, rec.ts.day, rec.ts.hour, rec.ts.minute, rec.ts.second,
+                                rec.ts.microsecond, tzinfo=rec.ts.tzinfo, fold=rec.ts.fold)
+            try:
+                other = plain.astimezone(_d.timezone(_d.timedelta(seconds=case["companion"])))
+                desc2 = RecordDescriptor("test/dt", [("datetime", "other"), ("datetime", "ts")])
+                rec = desc2(other=other, ts=rec.ts, _generated=gen)
+            except (OverflowError, ValueError):
+                pass
     except Exception as e:
         return {"constructed": _err(e)}
     ts = rec.ts
@@ -632,6 +696,19 @@ def oracle(case, obs):
                         f"datetime[] field is stored in SQLite as {base.get('sqlite_many_sample')!r} vs "
                         f"{r.get('sqlite_many_sample')!r}")
         return None
+    if case["kind"] == "jsonin":
+        if "error" in obs:
+            return f"a JSON record line with the timestamp {case['text']!r} (no offset) is not read: {obs['error']} {obs['msg']}"
+        import datetime as _d
+        t = _d.datetime.fromisoformat(case["text"])
+        want = [t.year, t.month, t.day, t.hour, t.minute, t.second, t.microsecond]
+        o = obs["read"]
+        if o["off"] is None:
+            return "field value read from JSON is naive (no tzinfo)"
+        if o["f"] != want or o["off"] != 0:
+            return (f"JSON timestamp {case['text']!r} without offset, read under TZ={case['tz']}: got wall {o['f']} offset "
+                    f"{o['off']} us instead of the same wall clock in UTC (naive input means UTC)")
+        return None
     if "skipped" in obs:
         return None
     inp = case["input"]
@@ -790,6 +867,8 @@ def nontrivial(case, obs):
     if case["kind"] == "display":
         strs = [tuple(r.get("str", [])) for r in obs.get("runs", [])]
         return len(set(strs)) > 1          # the setting did change what is printed
+    if case["kind"] == "jsonin":
+        return case["tz"] != "UTC"
     if "skipped" in obs:
         return False
     inp = case["input"]
@@ -801,6 +880,8 @@ def nontrivial(case, obs):
 def classify(case, obs):
     if case["kind"] == "display":
         return ("display-list:" if case.get("list") else "display:") + ("printed-differs" if nontrivial(case, obs) else "printed-same")
+    if case["kind"] == "jsonin":
+        return "jsonin:" + case["tz"]
     if "skipped" in obs:
         return "skipped:zone-missing"
     inp = case["input"]
@@ -832,6 +913,8 @@ def shrink(case):
         if len(case["settings"]) > 2:
             for i in range(1, len(case["settings"])):
                 yield dict(case, settings=[case["settings"][0], case["settings"][i]])
+        return
+    if case["kind"] == "jsonin":
         return
     inp = case["input"]
     if "disp" in case:
